@@ -147,6 +147,17 @@ def rep_programs(rng, tier):
         pairs.append((data + '; movl $%d,%%ecx; repe cmpsb' % n, data + '; movl $%d,%%ecx; ' % n + '; '.join(['cmpsb'] * steps) + '; movl $%d,%%ecx' % (n - steps)))
         steps = 1
         pairs.append((data + '; movl $%d,%%ecx; repne cmpsb' % n, data + '; movl $%d,%%ecx; ' % n + '; '.join(['cmpsb'] * steps) + '; movl $%d,%%ecx' % (n - steps)))
+    # the termination test belongs AFTER each step: a concrete zf left by earlier instructions must not end (or prolong) the loop
+    for entry, zf in (('xorl %ebx,%ebx', 1), ('movl $1,%ebx; testl %ebx,%ebx', 0)):
+        for n in (2, 3):
+            steps = min(n, 2)
+            pairs.append((data + '; ' + entry + '; movl $%d,%%ecx; repe cmpsb' % n, data + '; ' + entry + '; movl $%d,%%ecx; ' % n + '; '.join(['cmpsb'] * steps) + '; movl $%d,%%ecx' % (n - steps)))
+            pairs.append((data + '; ' + entry + '; movl $%d,%%ecx; repne cmpsb' % n, data + '; ' + entry + '; movl $%d,%%ecx; cmpsb; movl $%d,%%ecx' % (n, n - 1)))
+    sdata = 'cld; movl $0x3000,%edi; movb $5,(%edi); movb $1,1(%edi); movb $0,2(%edi); movb $9,3(%edi)'
+    for entry, stop in (('xorl %eax,%eax', 3), ('movl $1,%eax; testl %eax,%eax', 2)):      # al = 0 (zf = 1 on entry) / al = 1 (zf = 0 on entry)
+        for n in (4, 8):
+            pairs.append((sdata + '; ' + entry + '; movl $%d,%%ecx; repne scasb' % n, sdata + '; ' + entry + '; movl $%d,%%ecx; ' % n + '; '.join(['scasb'] * stop) + '; movl $%d,%%ecx' % (n - stop)))
+            pairs.append((sdata + '; ' + entry + '; movl $%d,%%ecx; repe scasb' % n, sdata + '; ' + entry + '; movl $%d,%%ecx; scasb; movl $%d,%%ecx' % (n, n - 1)))
     return pairs
 
 def strip_state(out):
